@@ -660,6 +660,127 @@ pub fn runtime_stream_case(g: &FnGraph<TFn>, rs: &RunSpec, hold: usize) -> Trace
     Trace { term, result: None, log, quiescent: 0, polls: 0, runs_after: None }
 }
 
+// ---------------------------------------------------------------------------------- stream handed from thread to thread (C19)
+
+struct FlagWaker(AtomicBool);
+impl Wake for FlagWaker {
+    fn wake(self: Arc<Self>) {
+        self.0.store(true, Ordering::SeqCst);
+    }
+    fn wake_by_ref(self: &Arc<Self>) {
+        self.0.store(true, Ordering::SeqCst);
+    }
+}
+
+#[cfg(not(feature = "mt"))]
+pub fn stream_handoff(_gs: &GraphSpec, _seed: u64) -> (Vec<Violation>, u64) {
+    (Vec::new(), 0)
+}
+
+/// A stream is *moved*: thread A polls it to Pending, thread B (its new owner, with its own waker)
+/// polls it to Pending again, thread C drops one of the FnRefs handed out so far, thread D polls.
+/// Decided logically, no clock: once C's drop has returned, either B's waker - the waker of the
+/// latest poll - has been signalled, or the poll on D must find nothing new. A function that D
+/// receives although B was never woken is one the new owner would have waited for for ever.
+/// Returns (violations, hand-overs made).
+#[cfg(feature = "mt")]
+pub fn stream_handoff(gs: &GraphSpec, seed: u64) -> (Vec<Violation>, u64) {
+    let Some(g) = try_build(gs) else { return (Vec::new(), 0) };
+    let mut rng = Rng::new(seed);
+    let reverse = rng.chance(1, 2);
+    let mut out = Vec::new();
+    let mut handoffs = 0u64;
+    type S<'a> = Pin<Box<dyn Stream<Item = FnRef<'a, TFn>> + Send + 'a>>;
+    fn poll_on_new_thread<'a>(mut s: S<'a>) -> (S<'a>, Vec<FnRef<'a, TFn>>, bool, Arc<FlagWaker>) {
+        thread::scope(|sc| {
+            sc.spawn(move || {
+                let fw = Arc::new(FlagWaker(AtomicBool::new(false)));
+                let waker = Waker::from(fw.clone());
+                let mut cx = Context::from_waker(&waker);
+                let mut got = Vec::new();
+                let mut ended = false;
+                for _ in 0..10_000 {
+                    match s.as_mut().poll_next(&mut cx) {
+                        Poll::Ready(Some(r)) => got.push(r),
+                        Poll::Ready(None) => {
+                            ended = true;
+                            break;
+                        }
+                        Poll::Pending => {
+                            // a wake-up signalled during the poll itself means "poll again"
+                            if !fw.0.swap(false, Ordering::SeqCst) {
+                                break;
+                            }
+                        }
+                    }
+                }
+                (s, got, ended, fw)
+            })
+            .join()
+            .expect("polling thread")
+        })
+    }
+    let mut s: S<'_> = if reverse { Box::pin(g.stream_with(fn_graph::StreamOpts::new().rev())) } else { Box::pin(g.stream()) };
+    let mut held: Vec<FnRef<'_, TFn>> = Vec::new();
+    let mut yielded = 0usize;
+    for _round in 0..(4 * gs.n + 4) {
+        // thread A
+        let (s1, got, ended, _wa) = poll_on_new_thread(s);
+        s = s1;
+        yielded += got.len();
+        held.extend(got);
+        if ended {
+            break;
+        }
+        // thread B: the new owner
+        let (s2, got, ended, wb) = poll_on_new_thread(s);
+        s = s2;
+        yielded += got.len();
+        held.extend(got);
+        if ended || held.is_empty() {
+            break;
+        }
+        handoffs += 1;
+        // thread C drops some of what is held (one, or all of it)
+        let k = if rng.chance(1, 4) { held.len() } else { 1 };
+        let mut victims = Vec::new();
+        for _ in 0..k {
+            let i = rng.below(held.len());
+            victims.push(held.swap_remove(i));
+        }
+        let dropped: Vec<usize> = victims.iter().map(|r| r.idx).collect();
+        thread::scope(|sc| {
+            sc.spawn(move || drop(victims));
+        });
+        let b_woken = wb.0.load(Ordering::SeqCst);
+        // thread D
+        let (s3, got, ended, _wd) = poll_on_new_thread(s);
+        s = s3;
+        if !b_woken && (!got.is_empty() || ended) {
+            out.push(v(
+                "C19",
+                "moved-stream-new-owner-not-woken",
+                format!(
+                    "stream ({}) polled to Pending on thread A, then on thread B (new owner, own waker); FnRef(s) {dropped:?} dropped on thread C; B's waker was never signalled, yet a further poll {} - the new owner would have waited for ever | g={}",
+                    if reverse { "reverse" } else { "forward" },
+                    if ended { "ends the stream".to_string() } else { format!("yields function(s) {:?}", got.iter().map(|r| r.idx).collect::<Vec<_>>()) },
+                    gs.encode()
+                ),
+            ));
+            break;
+        }
+        yielded += got.len();
+        held.extend(got);
+        if ended {
+            break;
+        }
+    }
+    let _ = yielded;
+    drop(held);
+    drop(s);
+    (out, handoffs)
+}
+
 // ---------------------------------------------------------------------------------- multi-thread runtime (C19 in-family part)
 
 #[derive(Clone)]
